@@ -3,6 +3,7 @@
    (after fix 3574b5d), payload.Bin.Split / Remove, startTrack, startValidate,
    finish, recover().  Definitions only. *)
 From Coq Require Import List ZArith Bool.
+From STS Require Import Model.Queue.   (* name, name_eqb *)
 Import ListNotations.
 Open Scope Z_scope.
 
@@ -156,6 +157,71 @@ Definition scan_returns (disabled include_hidden has_include : bool) (min_age mt
   match fi_cached f with
   | None => true
   | Some (csize, ctime) => negb (csize =? fi_size f) || negb (ctime =? mtime)
+  end.
+
+(* ---- scan histories (C17): the cache is what makes a scan depend on the past ------
+   Broker.scan: every file the scan returns is hashed and cache.Add'ed with the
+   size and modification time it had when it was scanned. *)
+Record dfile := mkdfile {
+  df_name : name; df_size : Z; df_mtime : Z;
+  df_hidden : bool; df_skipped : bool; df_ignored : bool; df_included : bool
+}.
+
+Definition scache := list (name * (Z * Z)).
+
+Fixpoint sc_get (c : scache) (n : name) : option (Z * Z) :=
+  match c with
+  | [] => None
+  | (m, v) :: r => if name_eqb m n then Some v else sc_get r n
+  end.
+
+Definition sc_put (c : scache) (n : name) (v : Z * Z) : scache := (n, v) :: c.
+
+Record scan_cfg := mkscfg { sc_disabled : bool; sc_hidden : bool; sc_hasinc : bool; sc_minage : Z }.
+
+Definition scan_file (cfg : scan_cfg) (now : Z) (c : scache) (d : dfile) : bool :=
+  scan_returns (sc_disabled cfg) (sc_hidden cfg) (sc_hasinc cfg) (sc_minage cfg) (df_mtime d)
+    (mkfinfo (df_size d) (now - df_mtime d) (df_hidden d) (df_skipped d) (df_ignored d) (df_included d)
+             (sc_get c (df_name d))).
+
+Definition scan_once (cfg : scan_cfg) (now : Z) (world : list dfile) (c : scache) : list dfile * scache :=
+  let ret := filter (scan_file cfg now c) world in
+  (ret, fold_left (fun c d => sc_put c (df_name d) (df_size d, df_mtime d)) ret c).
+
+(* a history: each scan sees the configuration (the disable marker can come and go),
+   the clock and the directory tree of its moment *)
+Fixpoint scan_run (evs : list (scan_cfg * Z * list dfile)) (c : scache) : list (list dfile) :=
+  match evs with
+  | [] => []
+  | (cfg, now, world) :: r =>
+      let '(ret, c') := scan_once cfg now world c in ret :: scan_run r c'
+  end.
+
+(* the version of a name that was returned last, by the outputs so far (oldest first) *)
+Fixpoint last_returned (outs : list (list dfile)) (n : name) (acc : option (Z * Z)) : option (Z * Z) :=
+  match outs with
+  | [] => acc
+  | o :: r =>
+      last_returned r n
+        (fold_left (fun a d => if name_eqb (df_name d) n then Some (df_size d, df_mtime d) else a) o acc)
+  end.
+
+(* the cache after a history *)
+Fixpoint scan_cache (evs : list (scan_cfg * Z * list dfile)) (c : scache) : scache :=
+  match evs with
+  | [] => c
+  | (cfg, now, world) :: r => scan_cache r (snd (scan_once cfg now world c))
+  end.
+
+(* eligibility without the cache, and "differs from the version returned last" *)
+Definition eligible (cfg : scan_cfg) (now : Z) (d : dfile) : bool :=
+  scan_returns (sc_disabled cfg) (sc_hidden cfg) (sc_hasinc cfg) (sc_minage cfg) (df_mtime d)
+    (mkfinfo (df_size d) (now - df_mtime d) (df_hidden d) (df_skipped d) (df_ignored d) (df_included d) None).
+
+Definition changed_since (last : option (Z * Z)) (d : dfile) : bool :=
+  match last with
+  | None => true
+  | Some (s, m) => negb (s =? df_size d) || negb (m =? df_mtime d)
   end.
 
 (* ---- the restart plan (C07): what recover() does with one cached file ------------ *)
